@@ -247,6 +247,55 @@ func (e *omegaEnv) ruleChargeFirst(rule string, exempt map[string]string) {
 	}
 }
 
+// omegaSources: where a dispatched host-call function value can come from: named functions, getOmega results, nil —
+// through phis and through package functions that return such a value.
+func omegaSources(v ssa.Value, home *ssa.Function, out map[string]bool, d int) {
+	if d > 8 || v == nil {
+		out["?"] = true
+		return
+	}
+	switch x := stripConv(v).(type) {
+	case *ssa.Phi:
+		for _, e := range x.Edges {
+			if e != v {
+				omegaSources(e, home, out, d+1)
+			}
+		}
+	case *ssa.Function:
+		out[x.Name()] = true
+	case *ssa.Const:
+		if x.Value == nil {
+			out["nil"] = true
+		} else {
+			out["?"] = true
+		}
+	case *ssa.Extract:
+		omegaSources(x.Tuple, home, out, d+1)
+	case *ssa.Call:
+		g := x.Call.StaticCallee()
+		switch {
+		case g == nil:
+			out["?"] = true
+		case g.Name() == "getOmega":
+			out["getOmega"] = true
+		case len(g.Blocks) > 0 && g.Pkg == home.Pkg:
+			allInstrs(g, func(in ssa.Instruction) {
+				if r, ok := in.(*ssa.Return); ok {
+					for _, rv := range retResults(r) {
+						if strings.Contains(types.TypeString(rv.Type(), nil), "Omega") {
+							omegaSources(rv, g, out, d+1)
+						}
+					}
+				}
+			})
+		default:
+			out["?"] = true
+		}
+	default:
+		out["?"+exprStr(v, exprOpts{})] = true
+	}
+}
+
 // innerHelpers: functions with the host-call signature that are not host calls: nothing in the module uses them as
 // a function value (so no table or dispatcher can reach them) and every static caller is itself a function with
 // the host-call signature. Value: the callers' names.
@@ -1363,6 +1412,17 @@ func (e *omegaEnv) ruleUnknownID(rule string) {
 		found = true
 		s := exprStr(call.Call.Value, exprOpts{})
 		okShape := strings.HasPrefix(s, "phi(PVM.getOmega(") && strings.Contains(s, " | PVM.hostCallException") && strings.Contains(s, " | PVM.hostCallOutOfGas")
+		if !okShape {
+			// the same set of sources reached through merges and package helpers that select the function
+			leaves := map[string]bool{}
+			omegaSources(call.Call.Value, f, leaves, 0)
+			okShape = leaves["getOmega"] && leaves["hostCallException"]
+			for l := range leaves {
+				if l != "getOmega" && l != "hostCallException" && l != "hostCallOutOfGas" && l != "nil" {
+					okShape = false
+				}
+			}
+		}
 		c.Check(okShape, rule, "PVM.(*Host).HostCall · dispatch", in.Pos(), "dispatches getOmega's result, else hostCallException (or hostCallOutOfGas)", "unknown identifiers are not routed to hostCallException: callee is "+s)
 		// id passed to getOmega is the full host-call id of the exit reason
 	})
@@ -1383,7 +1443,18 @@ func (e *omegaEnv) ruleUnknownID(rule string) {
 	if g := c.Fn("PVM", "getOmega"); g != nil {
 		conds := condShapes(g)
 		want := []string{"(len(p0) <= p1)", "(p1 < 0)"}
-		c.Check(strings.Join(conds, " ; ") == strings.Join(want, " ; "), rule, "PVM.getOmega · bounds", g.Pos(), "nil for identifiers outside the registry", "getOmega's bounds test is "+strings.Join(conds, " ; "))
+		okB := strings.Join(conds, " ; ") == strings.Join(want, " ; ")
+		if !okB {
+			// or: every index into the registry is proven inside it from the tests that dominate it
+			sites := checkBounds(g)
+			okB = len(sites) > 0
+			for _, st := range sites {
+				if !st.ok {
+					okB = false
+				}
+			}
+		}
+		c.Check(okB, rule, "PVM.getOmega · bounds", g.Pos(), "nil for identifiers outside the registry", "getOmega's bounds test is "+strings.Join(conds, " ; "))
 	}
 }
 
